@@ -470,7 +470,7 @@ func TestCheck(t *testing.T) {
 	if part != "race" {
 		nSeq := r.N(300, 20000)
 		r.Parallel("seq", nSeq, func(i int, rng *mrand.Rand) { e.seqHistory("seq", i, rng) })
-		nConc := r.N(12, 500)
+		nConc := r.N(24, 500)
 		r.Parallel("conc", nConc, func(i int, rng *mrand.Rand) { e.concCase("conc", i, rng) })
 		if !r.Replaying() {
 			r.Floor("seq_histories", int64(nSeq))
@@ -503,7 +503,7 @@ func TestCheck(t *testing.T) {
 		}
 	} else {
 		// One replayable unit ("race:0", the address the driver gives to race reports) made of nRace concurrent cases.
-		nRace := r.N(8, 96)
+		nRace := r.N(16, 160)
 		r.ParallelW("race", 1, 1, func(_ int, _ *mrand.Rand) {
 			var next atomic.Int64
 			var wg sync.WaitGroup
